@@ -124,6 +124,15 @@ def hashlm_class():
             nh = (h * HT.A + tok + 1) % HT.P
             nh = torch.where(idxr > 0, nh, h)
             logits = self.table[nh % self.M] + self.cbias[cond % self.cbias.size(0)]
+            eos = getattr(self, "post_eos_zero", None)
+            if eos is not None and hist.size(0):
+                # a model that never repeats the end symbol: once the consumed history contains eos, eos itself
+                # gets probability zero.  Whatever a model says about a FINISHED path must not matter.
+                S = hist.size(0)
+                seen = ((hist == eos) & (torch.arange(S).unsqueeze(1) < idxr.unsqueeze(0))).any(0)
+                if bool(seen.any()):
+                    logits = logits.clone()
+                    logits[seen, eos] = float("-inf")
             nxt = dict(prev)
             nxt["h"] = nh
             return logits, nxt
